@@ -85,8 +85,23 @@ class Loc:
         self.kind, self.ctype, self.a, self.b, self.c = kind, ctype, a, b, c
 
 
+def heap0(key):
+    """the field heap `key` ("record:offset:bits") as it is at function entry"""
+    return z3.Array('H0_' + key, B64, z3.BitVecSort(int(key.rsplit(':', 1)[1])))
+
+
+def ghost0(key, sort):
+    """the ghost variable / C global `key` as it is at function entry"""
+    return z3.Const('G0_' + (key[2:] if key.startswith('g:') else key), sort)
+
+
 class State:
-    __slots__ = ('env', 'raw', 'fh', 'err', 'ghost', 'pc')
+    """fh / ghost hold only the heaps and ghost variables touched so far; an absent key stands for the value
+    dh(key) / dg(key, sort): the function-entry value, or -- after a havoc (a call that may run arbitrary code, a
+    loop head) -- the arbitrary value of that havoc.  Merging and havocking go through these defaults, so a
+    heap first touched on one branch, or first read after a havoc, is never mistaken for the other branch's or
+    the function-entry heap."""
+    __slots__ = ('env', 'raw', 'fh', 'err', 'ghost', 'pc', 'dh', 'dg')
 
     def __init__(self):
         self.env = {}
@@ -95,6 +110,8 @@ class State:
         self.err = None
         self.ghost = {}
         self.pc = []
+        self.dh = heap0
+        self.dg = ghost0
 
     def copy(self):
         s = State()
@@ -104,7 +121,48 @@ class State:
         s.err = self.err
         s.ghost = dict(self.ghost)
         s.pc = list(self.pc)
+        s.dh, s.dg = self.dh, self.dg
         return s
+
+    def heap(self, key):
+        if key not in self.fh:
+            self.fh[key] = self.dh(key)
+        return self.fh[key]
+
+    def gvar(self, key, sort):
+        if key not in self.ghost:
+            self.ghost[key] = self.dg(key, sort)
+        return self.ghost[key]
+
+    def take(self, m):
+        """become state m (used to fold side effects of sub-expressions back)"""
+        self.env, self.raw, self.fh, self.err, self.ghost, self.pc, self.dh, self.dg = \
+            m.env, m.raw, m.fh, m.err, m.ghost, m.pc, m.dh, m.dg
+
+    _hv = itertools.count()
+
+    def havoc(self, tag, keep=None, raw=True, fields=True, err=None, ghost=True):
+        """everything named becomes arbitrary (unless `keep`, a Bool, holds): existing entries and the defaults"""
+        uid = "%s!hv%d" % (tag, next(State._hv))
+
+        def mix(old, new):
+            return new if keep is None else z3.If(keep, old, new)
+        if raw:
+            self.raw = mix(self.raw, z3.Const('raw_' + uid, z3.ArraySort(B64, B8)))
+        if fields:
+            odh = self.dh
+            ndh = lambda key: z3.Array('H_%s_%s' % (uid, key), B64, z3.BitVecSort(int(key.rsplit(':', 1)[1])))
+            for key in list(self.fh):
+                self.fh[key] = mix(self.fh[key], ndh(key))
+            self.dh = ndh if keep is None else (lambda key: z3.If(keep, odh(key), ndh(key)))
+        if ghost:
+            odg = self.dg
+            ndg = lambda key, sort: z3.Const('g_%s_%s' % (uid, key), sort)
+            for key in list(self.ghost):
+                self.ghost[key] = mix(self.ghost[key], ndg(key, self.ghost[key].sort()))
+            self.dg = ndg if keep is None else (lambda key, sort: z3.If(keep, odg(key, sort), ndg(key, sort)))
+        if err is not None:
+            self.err = mix(self.err, err)
 
     def assume(self, c):
         if z3.is_true(c):
@@ -188,17 +246,17 @@ def _merge2(s1, s2):
     for k_ in set(s1.env) | set(s2.env):
         out.env[k_] = pick(s1.env.get(k_), s2.env.get(k_))
     out.raw = pick(s1.raw, s2.raw)
+    # a heap / ghost variable absent on one side stands for that side's default (see State)
     for k_ in set(s1.fh) | set(s2.fh):
-        out.fh[k_] = pick(s1.fh.get(k_), s2.fh.get(k_))
+        out.fh[k_] = pick(s1.fh[k_] if k_ in s1.fh else s1.dh(k_), s2.fh[k_] if k_ in s2.fh else s2.dh(k_))
     out.err = pick(s1.err, s2.err)
     for k_ in set(s1.ghost) | set(s2.ghost):
-        a_, b_ = s1.ghost.get(k_), s2.ghost.get(k_)
-        if a_ is None or b_ is None:
-            # absent on one side = still the value at function entry (the G0_ constant of that ghost)
-            other = b_ if a_ is None else a_
-            init = z3.Const('G0_' + (k_[2:] if k_.startswith('g:') else k_), other.sort())
-            a_, b_ = (init if a_ is None else a_), (init if b_ is None else b_)
-        out.ghost[k_] = pick(a_, b_)
+        srt = (s1.ghost.get(k_) if k_ in s1.ghost else s2.ghost[k_]).sort()
+        out.ghost[k_] = pick(s1.ghost[k_] if k_ in s1.ghost else s1.dg(k_, srt),
+                             s2.ghost[k_] if k_ in s2.ghost else s2.dg(k_, srt))
+    d1h, d2h, d1g, d2g = s1.dh, s2.dh, s1.dg, s2.dg
+    out.dh = d1h if d1h is d2h else (lambda key: z3.If(c1, d1h(key), d2h(key)))
+    out.dg = d1g if d1g is d2g else (lambda key, sort: z3.If(c1, d1g(key, sort), d2g(key, sort)))
     return out
 
 
@@ -210,6 +268,7 @@ class Contract:
     name = None
     inline = False           # expand the body at call sites instead of using pre/post
     loops = {}               # ordinal -> LoopSpec
+    labels = {}              # label name -> LoopSpec for a label that is the target of a BACKWARD goto
     trusted = False          # contract is assumed, body not verified (listed in evidence)
     pure = False             # assigns nothing
 
@@ -226,6 +285,9 @@ class Contract:
         return Frame()
 
     def witness(self, c):    # -> {name: term} values of interest for replay
+        return {}
+
+    def post_witness(self, c):   # -> {name: term} over the state at a return (c.new, c.result): for known-finding conditions
         return {}
 
     def accessible(self, c):  # -> None (no memory-safety obligations) or {'read': pred, 'write': pred} with pred(st, addr, nbytes) -> Bool
@@ -259,7 +321,10 @@ class Frame:
 
 
 class LoopSpec:
-    def __init__(self, invariant=None, unroll=None, raw=None, summarise=False):
+    def __init__(self, invariant=None, unroll=None, raw=None, summarise=False, assume_exit=False):
+        self.assume_exit = assume_exit  # summarised loops only: the invariant (whose preservation is the business of the
+        #                               loop-body contract that restates it in pre() and post()) and the negated loop
+        #                               condition are assumed for the otherwise arbitrary state after the loop
         self.summarise = summarise    # True: only the invariant's loop-entry obligations are generated here; the
         #                               iterations are verified by a loop-body contract of their own and the state
         #                               after the loop is arbitrary (nothing is assumed about it)
@@ -292,10 +357,7 @@ class Ctx:
 
     def global_value(self, st, name, bits=64):
         """value of a scalar C global variable in state st"""
-        key = 'g:' + name
-        if key in st.ghost:
-            return st.ghost[key]
-        return self.ex.init_ghost.setdefault(key, z3.Const('G0_' + name, z3.BitVecSort(bits)))
+        return st.gvar('g:' + name, z3.BitVecSort(bits))
 
     def valid(self, addr, n):
         """[addr, addr+n) is mapped memory (no wrap-around).  Regions named by a function's
@@ -327,6 +389,7 @@ class Exec:
         self.memlocals = {}            # decl id -> (addr const, ctype)
         self.addr_taken = set()
         self.labels_seen = set()
+        self.back_labels = {}          # label -> state at first entry (for c.entry in label invariants)
         self.decl_types = {}
         self._fresh = itertools.count()
         self._globals_addr = {}
@@ -388,10 +451,7 @@ class Exec:
         return "%s:%d:%d" % (reckey, off, bits)
 
     def get_heap(self, st, key, bits):
-        if key not in st.fh:
-            st.fh[key] = self.init_heaps.setdefault(
-                key, z3.Array('H0_' + key, B64, z3.BitVecSort(bits)))
-        return st.fh[key]
+        return st.heap(key)
 
     def norm_field(self, base, reckey, fname):
         """innermost record + absolute base for rec.fname (fname may be dotted)"""
@@ -569,10 +629,7 @@ class Exec:
         if loc.kind == 'global':
             if loc.a in getattr(self.reg, 'const_globals', ()):
                 return self.global_addr('val:' + loc.a)
-            key = 'g:' + loc.a
-            if key not in st.ghost:
-                st.ghost[key] = self.init_ghost.setdefault(key, z3.Const('G0_' + loc.a, sort_of(t)))
-            return st.ghost[key]
+            return st.gvar('g:' + loc.a, sort_of(t))
         if loc.kind == 'mem':
             if t.kind in ('record', 'array'):
                 raise NotSupported("rvalue of aggregate")
@@ -720,7 +777,7 @@ class Exec:
         st = State()
         st.raw = self.raw0 = z3.Array('RAW0', B64, B8)
         st.err = self.err0 = z3.BitVec('ERR0', 64)
-        self.init_heaps, self.init_ghost, self.base_witness = {}, {}, {}
+        self.base_witness = {}
         self.prescan(self.fn)
         loops = []
 
@@ -801,8 +858,6 @@ class Exec:
         for label, p, extra in _norm(self.contract.pre(c0)):
             st.assume(p)
         self.collecting_regions = False
-        for k, h in self.st0.fh.items():
-            st.fh.setdefault(k, h)
         init, cond, inc, body = self.loop_parts(loop)
         line = line_of(loop)
         if cond:
@@ -821,6 +876,7 @@ class Exec:
             self.access_regions = acc
         ctl = {'breaks': [], 'continues': [], 'loop': True}
         self.ctlstack.append(ctl)
+        self.loop_ordinal = ordinal + 1     # loops nested in the body keep their source-order ordinals
         end = self.exec_stmt(body, st)
         self.ctlstack.pop()
         cur = merge_states([end] + ctl['continues'])
@@ -860,8 +916,6 @@ class Exec:
         st = State()
         st.raw = self.raw0 = z3.Array('RAW0', B64, B8)
         st.err = self.err0 = z3.BitVec('ERR0', 64)
-        self.init_heaps = {}
-        self.init_ghost = {}
         self.base_witness = {}
         args = {}
         self.prescan(self.fn)
@@ -896,11 +950,6 @@ class Exec:
         self.collecting_regions = False
         self.pre_pc = list(st.pc)
         self.restate_pre(st, c0)
-        # the initial heaps may have been extended by pre(); share them
-        for k, h in self.st0.fh.items():
-            st.fh.setdefault(k, h)
-        for k, g in self.st0.ghost.items():
-            st.ghost.setdefault(k, g)
         self.base_witness = dict(self.contract.witness(c0))
         acc = self.contract.accessible(c0)
         if acc is not None:
@@ -911,8 +960,9 @@ class Exec:
         # post-conditions per return
         for (rst, rval, rline) in self.returns:
             c = Ctx(self, args, self.st0, rst, rval)
+            pw = self.contract.post_witness(c)
             for label, g, extra in _norm(self.contract.post(c)):
-                self.ob('ensures', rline, label, rst, g, hyps_extra=extra or ())
+                self.ob('ensures', rline, label, rst, g, hyps_extra=extra or (), witness=pw)
             self.check_frame(c, rst, rline)
         self.global_hyps[:] = self.finish_hyps()
         for o in self.obs:
@@ -964,8 +1014,8 @@ class Exec:
                 else:
                     allowed.add(f)
             for key, h in rst.fh.items():
-                h0 = self.init_heaps.get(key)
-                if key in allowed or h0 is None or _same(h, h0):
+                h0 = heap0(key)
+                if key in allowed or _same(h, h0):
                     continue
                 a = z3.BitVec('frame_p', 64)
                 notstack = [z3.Not(in_range(a, sa, BV((ssize + 15) // 16 * 16, 64))) for sa, ssize in self.stack_syms]
@@ -977,13 +1027,11 @@ class Exec:
         if not fr.err and not _same(rst.err, self.err0):
             self.ob('frame', rline, 'error-indicator-unchanged', rst, rst.err == self.err0)
         for gk, gv in rst.ghost.items():
-            g0 = self.init_ghost.get(gk)
-            if gk in fr.ghost or gk.startswith('g:') and gk[2:] in fr.ghost:
+            g0 = ghost0(gk, gv.sort())
+            if gk in fr.ghost or gk.startswith('g:') and gk[2:] in fr.ghost or gk.startswith('tmp:'):
                 continue
-            if g0 is not None and not _same(gv, g0):
+            if not _same(gv, g0):
                 self.ob('frame', rline, 'ghost-unchanged:' + gk, rst, gv == g0)
-            elif g0 is None and not gk.startswith('tmp:'):
-                self.ob('frame', rline, 'ghost-unchanged:' + gk, rst, z3.BoolVal(False))
 
     # -- statements ----------------------------------------------------------
     def has_label(self, node):
@@ -1022,13 +1070,23 @@ class Exec:
         if k == 'GotoStmt':
             label = self.label_name(n['targetLabelDeclId'])
             if label in self.labels_seen:
-                raise NotSupported("backward goto %s" % label)
+                spec = self.contract.labels.get(label)
+                if spec is None or label not in self.back_labels:
+                    raise NotSupported("backward goto %s without a label invariant in the contract" % label)
+                entry = self.back_labels[label]
+                c_end = Ctx(self, self.args, self.st0, st)
+                c_end.entry = entry
+                for lab, g, extra in _norm(spec.invariant(c_end, st)):
+                    self.ob('loop-preserved', line_of(n), 'label %s:%s' % (label, lab), st, g, hyps_extra=extra or ())
+                return None
             self.gotos.setdefault(label, []).append(st)
             return None
         if k == 'LabelStmt':
             name = n['name']
             self.labels_seen.add(name)
             st = merge_states([st] + self.gotos.pop(name, []))
+            if name in self.contract.labels and st is not None:
+                st = self.enter_back_label(n, name, st)
             return self.exec_stmt(n['inner'][0], st)
         if k == 'DoStmt':
             return self.exec_do(n, st)
@@ -1050,6 +1108,32 @@ class Exec:
         # expression statement
         self.ev(n, st, want=False)
         return st
+
+    def enter_back_label(self, n, name, st):
+        """a label that later `goto`s jump back to is a loop head: its invariant (contract.labels[name]) holds on
+        entry (obligation), every local assigned anywhere in the function and -- if the function calls anything
+        -- the heaps are made arbitrary, the invariant is assumed, and each backward goto must re-establish it"""
+        spec = self.contract.labels[name]
+        line = line_of(n)
+        self.nloops += 1
+        c_entry = Ctx(self, self.args, self.st0, st)
+        for lab, g, extra in _norm(spec.invariant(c_entry, st)):
+            self.ob('loop-entry', line, 'label %s:%s' % (name, lab), st, g, hyps_extra=extra or ())
+        acc = {'vars': set(), 'mem': False, 'calls': False, 'raw': False, 'fields': False, 'err': False}
+        self.assigned_in(self.fn, acc)
+        h = st.copy()
+        for did in acc['vars']:
+            if did in h.env:
+                h.env[did] = self.fresh('label_%s_%s' % (name, self.decl_name(did)), h.env[did].sort())
+        h.havoc('label_%s' % name, raw=acc['raw'] or acc['calls'], fields=acc['fields'] or acc['calls'],
+                ghost=acc['calls'],
+                err=self.fresh('label_%s_err' % name, B64) if (acc['err'] or acc['calls']) else None)
+        c_h = Ctx(self, self.args, self.st0, h)
+        c_h.entry = st
+        for lab, g, extra in _norm(spec.invariant(c_h, h)):
+            h.assume(g)
+        self.back_labels[name] = st
+        return h
 
     def label_name(self, declid):
         if not hasattr(self, '_labelnames'):
@@ -1301,16 +1385,17 @@ class Exec:
                 self.loop_regions.append((ordinal, regions))
             else:
                 h.raw = newraw
-        if acc['fields'] or acc['calls']:
-            for key in list(h.fh):
-                h.fh[key] = self.fresh('loop%d_H' % ordinal, h.fh[key].sort())
-        if acc['err'] or acc['calls']:
-            h.err = self.fresh('loop%d_err' % ordinal, B64)
-        if acc['calls']:
-            for gk in list(h.ghost):
-                h.ghost[gk] = self.fresh('loop%d_g' % ordinal, h.ghost[gk].sort())
+        h.havoc('loop%d' % ordinal, raw=False, fields=acc['fields'] or acc['calls'], ghost=acc['calls'],
+                err=self.fresh('loop%d_err' % ordinal, B64) if (acc['err'] or acc['calls']) else None)
         if spec.summarise:
             self.summarised_loops.append((self.fname, ordinal, line))
+            if spec.assume_exit:
+                c_x = Ctx(self, self.args, self.st0, h)
+                c_x.entry = st
+                for label, g, extra in _norm(spec.invariant(c_x, h)):
+                    h.assume(g)
+                if cond and not is_do:
+                    h.assume(z3.Not(truth(self.ev(cond, h))))
             return h
         c_h = Ctx(self, self.args, self.st0, h)
         c_h.entry = st
@@ -1739,7 +1824,7 @@ class Exec:
             s1 = st.copy()
             s1.assume(z3.Not(a) if op == '&&' else a)
             m = merge_states([s2, s1])
-            st.env, st.raw, st.fh, st.err, st.ghost, st.pc = m.env, m.raw, m.fh, m.err, m.ghost, m.pc
+            st.take(m)
             return b2i(z3.And(a, b) if op == '&&' else z3.Or(a, b), t.bits)
         lt, rt = self.tu.ctype_of(L), self.tu.ctype_of(R)
         a = self.ev(L, st)
@@ -1807,7 +1892,7 @@ class Exec:
         va = self.ev(a, s1)
         vb = self.ev(b, s2)
         m = merge_states([s1, s2])
-        st.env, st.raw, st.fh, st.err, st.ghost, st.pc = m.env, m.raw, m.fh, m.err, m.ghost, m.pc
+        st.take(m)
         if va is None or vb is None:
             return None
         return z3.If(cv, va, vb)
@@ -1878,41 +1963,50 @@ class Exec:
             else:
                 st.raw = newraw
         if fr.all_fields:
-            for key in list(st.fh):
-                st.fh[key] = self.fresh('H_after_' + name, st.fh[key].sort())
+            st.havoc('after_' + name, raw=False, fields=True, ghost=False)
         for f in fr.fields:
             if isinstance(f, tuple):
                 t = self.tu.parse_type(f[0])
                 _, reckey, off, ft = self.norm_field(BV(0, 64), t.name, f[1])
                 key = self.heap_key(reckey, off, ft.bits)
-                self.get_heap(st, key, ft.bits)
+                st.heap(key)
                 if len(f) > 2:          # (type, field, object): only that object's field may change
                     nv = self.fresh('F_after_' + name, st.fh[key].sort().range())
                     st.fh[key] = z3.Store(st.fh[key], f[2], nv)
                     continue
             else:
                 key = f
-            st.fh[key] = self.fresh('H_after_' + name, st.fh[key].sort())
+            st.fh[key] = self.fresh('H_after_' + name, st.heap(key).sort())
         if fr.err:
             st.err = self.fresh('err_after_' + name, B64)
         for gk in fr.ghost:
-            gk2 = gk if gk in st.ghost else 'g:' + gk
-            if gk2 in st.ghost:
-                st.ghost[gk2] = self.fresh('g_after_' + name, st.ghost[gk2].sort())
+            # (a ghost variable the callee may change: arbitrary afterwards, whether or not it was touched before)
+            for gk2, srt in self.ghost_keys(st, gk):
+                st.ghost[gk2] = self.fresh('g_after_' + name, srt)
         if fr.havoc_if is not None and not self.known(old, z3.Not(fr.havoc_if)):
-            hv = fr.havoc_if
-            st.raw = z3.If(hv, self.fresh('raw_havoc_' + name, z3.ArraySort(B64, B8)), st.raw)
-            for key in list(st.fh):
-                st.fh[key] = z3.If(hv, self.fresh('H_havoc_' + name, st.fh[key].sort()), st.fh[key])
-            st.err = z3.If(hv, self.fresh('err_havoc_' + name, B64), st.err)
-            for gk in list(st.ghost):
-                st.ghost[gk] = z3.If(hv, self.fresh('g_havoc_' + name, st.ghost[gk].sort()), st.ghost[gk])
+            st.havoc('havoc_' + name, keep=z3.Not(fr.havoc_if), err=self.fresh('err_havoc_' + name, B64))
         c2 = Ctx(self, argmap, old, st, res)
         for label, q, extra in _norm(con.post(c2)):
             st.assume(q)
         for (addr, nb) in con.allocates(c2):
             self.alloc(st, nb, region=addr)
         return res
+
+    GHOST_SORTS = {}          # ghost key -> sort, for ghost variables that are not C globals (registered by contracts)
+
+    def ghost_keys(self, st, gk):
+        if gk in st.ghost:
+            return [(gk, st.ghost[gk].sort())]
+        if 'g:' + gk in st.ghost:
+            return [('g:' + gk, st.ghost['g:' + gk].sort())]
+        if gk in self.GHOST_SORTS:
+            return [(gk, self.GHOST_SORTS[gk])]
+        gv = self.tu.globals.get(gk)
+        if gv is not None:
+            t = self.tu.ctype_of(gv)
+            if t.kind in ('int', 'ptr', 'float'):
+                return [('g:' + gk, sort_of(t))]
+        return [(gk, B64)]
 
     def call_inline(self, name, st, args, n):
         if self.inline_depth > 6:
@@ -1921,7 +2015,7 @@ class Exec:
         sub = Exec(self.tu, self.reg, name, Contract())
         sub.__dict__.update({k: v for k, v in self.__dict__.items()
                              if k in ('obs', 'global_hyps', '_fresh', '_globals_addr', '_glob_syms', '_glob_symnames', 'stack_syms', '_alias_cache', '_outside_stores', 'alias_stats', 'pre_pc',
-                                      'init_heaps', 'init_ghost', 'raw0', 'err0', 'base_witness', '_names',
+                                      'raw0', 'err0', 'base_witness', '_names',
                                       'calls', 'trusted_used', 'st0', 'args', 'prune', 'declared_regions',
                                       'fresh_regions', 'access_regions', 'cur_line', 'literals', 'literal_hyps')})
         sub.fname = self.fname + '>' + name
@@ -1963,7 +2057,7 @@ class Exec:
         m.env = {k: v for k, v in m.env.items() if k in saved_env}
         for k, v in saved_env.items():
             m.env.setdefault(k, v)
-        st.env, st.raw, st.fh, st.err, st.ghost, st.pc = m.env, m.raw, m.fh, m.err, m.ghost, m.pc
+        st.take(m)
         self.nloops += sub.nloops
         return res
 
